@@ -130,6 +130,7 @@ func TestVerifC31(t *testing.T) {
 				"close_result": fmt.Sprint(err), "close_started_ms": float64(t0) / 1e6, "close_returned_ms": float64(t1) / 1e6,
 				"holder_released_ms": float64(ra) / 1e6, "gate_passed_to_close_ms": float64(aq) / 1e6}
 			relTok := "0"
+			conclusive := true
 			if c.forever {
 				relTok = "-"
 				// the operation is still running when the wait limit is reached: Close may fail, but only then
@@ -146,8 +147,13 @@ func TestVerifC31(t *testing.T) {
 				if held {
 					relTok = fmt.Sprint(int64(c.hold))
 				}
-				if class != "acquired" {
-					rep.Fail("close-failed-although-gate-released-within-limit", fmt.Sprintf("holder of %v: Close returned %v after %v", c.hold, err, t1-t0), replay)
+				// On a very slow machine the holder's own release may have slipped to within a second
+				// of (or past) the wait limit; then either outcome is legitimate and nothing is judged.
+				if held && (ra < 0 || ra > t0+limit-time.Second) {
+					conclusive = false
+					rep.Count("store:inconclusive-holder-released-too-late-on-this-machine")
+				} else if class != "acquired" {
+					rep.Fail("close-failed-although-gate-released-within-limit", fmt.Sprintf("holder of %v released at %v: Close (started %v) returned %v after %v", c.hold, ra, t0, err, t1-t0), replay)
 				} else {
 					from := t0
 					if ra > from {
@@ -170,10 +176,12 @@ func TestVerifC31(t *testing.T) {
 					t.Errorf("cleanup close: %v", err2)
 				}
 			}
-			mu.Lock()
-			allOps = append(allOps, []string{"closeclass " + relTok})
-			allImpl = append(allImpl, []string{class})
-			mu.Unlock()
+			if conclusive {
+				mu.Lock()
+				allOps = append(allOps, []string{"closeclass " + relTok})
+				allImpl = append(allImpl, []string{class})
+				mu.Unlock()
+			}
 			rep.Case(fmt.Sprintf("%d:%v:%v", ci, c.hold, c.forever), held)
 			rep.Count("store:" + class)
 			rep.Sample(replay)
